@@ -480,14 +480,20 @@ fn add_pkt<'a>(cb: CompoundBuilder<'a>, p: &'a Pkt, wrapped: bool) -> CompoundBu
 
 /// A `CompoundBuilder` over a member list (nested compounds become nested `CompoundBuilder`s).
 pub fn compound_builder<'a>(ms: &'a [Member]) -> CompoundBuilder<'a> {
-    let mut cb = Compound::builder();
+    compound_builder_p(ms, false)
+}
+
+/// The same, optionally querying the compound builder (size + scratch write) after every `add_packet`.
+pub fn compound_builder_p<'a>(ms: &'a [Member], probe: bool) -> CompoundBuilder<'a> {
+    let mut cb = pr(Compound::builder(), probe);
     for m in ms {
         cb = match m {
             Member::Plain(p) => add_pkt(cb, p, false),
             Member::Wrapped(p) => add_pkt(cb, p, true),
             Member::Ext { pt, min, count, ssrc, words, pad } => super::ext::add_ext(cb, *pt, *min, *count, *ssrc, words, *pad),
-            Member::Nested(inner) => cb.add_packet(compound_builder(inner)),
+            Member::Nested(inner) => cb.add_packet(compound_builder_p(inner, probe)),
         };
+        cb = pr(cb, probe);
     }
     cb
 }
